@@ -8,7 +8,7 @@ From Coq Require Import List NArith ZArith Bool.
 From Coq Require Import Init.Byte.
 From FFS Require Import Base.Res Base.Bytes Abi.Spec.
 From FFS Require Import Eip712.Util Eip712.Input Eip712.Numeric Eip712.Coerce Eip712.Model.
-From FFS Require Import Eip712.TotalProofsInput Eip712.TotalProofs Eip712.NumericProofs Eip712.SpellingProofs.
+From FFS Require Import Eip712.TotalProofsInput Eip712.TotalProofs Eip712.TotalProofsFuel Eip712.NumericProofs Eip712.SpellingProofs Eip712.SpellingDocProofs.
 Import ListNotations.
 
 (* 1. Totality.  Any JSON tree offered as the document — decoded into a TypedData value and hashed,
@@ -31,6 +31,16 @@ Theorem C14_total_any_payload :
   forall H big_other (payload : option typed_data), EncodeTypedDataV4 H big_other payload <> Panic.
 Proof. exact EncodeTypedDataV4_total. Qed.
 Print Assumptions C14_total_any_payload.
+
+(* 1c. Totality is not an artefact of the model's fuel: for every payload the dependency walk (fuel
+      S |types|) and the recursion over the value (fuel S depth) finish, i.e. the model never answers
+      with its out-of-fuel error — an [Err] of the model is an error value returned by the Go code. *)
+Theorem C14_total_fuel_suffices :
+  forall H big_other sign_direct (payload : option typed_data),
+    EncodeTypedDataV4 H big_other payload <> Err EOutOfFuel /\
+    SignTypedDataV4 H big_other sign_direct payload <> Err EOutOfFuel.
+Proof. intros; split; [apply EncodeTypedDataV4_fuel | apply SignTypedDataV4_fuel]. Qed.
+Print Assumptions C14_total_fuel_suffices.
 
 (* 2. The three spellings.  For every integer z (no bound) the canonical decimal text as a JSON number,
       the same text as a string, and the canonical 0x-hex string are read as exactly z ... *)
@@ -57,6 +67,21 @@ Theorem C14_spellings_agree :
 Proof. exact spellings_agree_element. Qed.
 Print Assumptions C14_spellings_agree.
 
+(*    ... and on whole documents: two documents with the same types and primary type whose domain and
+      message differ only in how integers are spelled (JSON number / decimal string / 0x-hex string of
+      the same integer, relation [spelling]) at positions whose type — followed through struct members
+      and array elements of any nesting, as encodeElement follows it ([respelled]) — is an integer
+      type, have the same digest (or fail alike). *)
+Theorem C14_spellings_agree_document :
+  forall H big_other types primary d1 d2 m1 m2,
+    let ts := effective_types types in
+    members_rel (respelled ts (fuel_of (GMap d1))) (members_of (tget EIP712Domain ts)) d1 d2 ->
+    members_rel (respelled ts (fuel_of (GMap m1))) (members_of (tget primary ts)) m1 m2 ->
+    EncodeTypedDataV4 H big_other (Some (mkTD types primary (Some d1) (Some m1))) =
+    EncodeTypedDataV4 H big_other (Some (mkTD types primary (Some d2) (Some m2))).
+Proof. exact EncodeTypedDataV4_respelled. Qed.
+Print Assumptions C14_spellings_agree_document.
+
 (* 3. Never a different value.  Whatever value sits at an integer member: if it is encoded at all,
       the coercion read an integer z from it, z is in range of the type and the bytes are the word of
       z; and for a text in the decimal / hex / scientific grammars (every JSON number is) z is exactly
@@ -75,6 +100,34 @@ Proof.
   intros t [-> | ->] Hc; apply (BigIntegerFromString_sound o t z Hc Hz).
 Qed.
 Print Assumptions C14_inexact_rejected.
+
+(* 3b. [text_denotes] speaks about the text itself: the components the model's tokenizer returns are
+      the pieces of the text in order — sign, digits; sign, "0x"/"0X", hex digits; sign, integer
+      digits, '.' fraction digits, 'e'/'E' sign exponent digits. *)
+Theorem C14_numeric_text_faithful :
+  forall t,
+  (forall neg ds, classify t = CDec neg ds ->
+     exists sgn, t = sgn ++ ds /\ is_sign sgn neg /\ forallb Numeric.is_digit ds = true) /\
+  (forall neg ds, classify t = CHex neg ds ->
+     exists sgn x, t = sgn ++ x30 :: x :: ds /\ is_sign sgn neg /\ (x = x78 \/ x = x58) /\
+                   forallb is_hex ds = true /\ ds <> []) /\
+  (forall neg ip fp eneg ed, classify t = CSci neg ip fp eneg ed ->
+     exists sgn expo, t = sgn ++ ip ++ frac_text fp ++ expo /\ is_sign sgn neg /\
+       forallb Numeric.is_digit ip = true /\ forallb Numeric.is_digit fp = true /\
+       forallb Numeric.is_digit ed = true /\
+       ((expo = [] /\ ed = [] /\ fp <> []) \/
+        (exists e es, expo = e :: es ++ ed /\ (e = x65 \/ e = x45) /\ is_sign es eneg /\ ed <> []))).
+Proof. exact classify_faithful. Qed.
+Print Assumptions C14_numeric_text_faithful.
+
+(* non-vacuity of the document-level statement: chainId 1 / "0x1", x = 2^63 as a number / "0x8000000000000000",
+   ys = [255, "0"] / ["0xff", 0] in a uint8[] *)
+Example C14_nonvacuous_document :
+  let ts := effective_types (Some ex_types) in
+  members_rel (respelled ts (fuel_of (GMap ex_d1))) (members_of (tget EIP712Domain ts)) ex_d1 ex_d2 /\
+  members_rel (respelled ts (fuel_of (GMap ex_m1))) (members_of (tget (bs "A") ts)) ex_m1 ex_m2 /\
+  ex_m1 <> ex_m2.
+Proof. exact respelled_documents. Qed.
 
 (* non-vacuity *)
 Example C14_nonvacuous :
